@@ -3,6 +3,9 @@ CONSTANT NCols = 3
 CONSTANT HSeeds = {1, 2}
 CONSTANT NPat = 8
 CONSTANT Kinds = {"tm", "krum"}
+CONSTANT TSeeds = {5001, 5002, 5003}
+CONSTANT ManyM = {26, 33, 40, 48}
+CONSTANT ManySteps = 3
 SPECIFICATION Spec
 INVARIANT TypeOK
 INVARIANT RejectIsTerminal
@@ -10,5 +13,6 @@ INVARIANT TMImplIsProp
 INVARIANT TMRobust
 INVARIANT KrumChecks
 INVARIANT KrumImplIsProp
+INVARIANT OffsetInvariant
 INVARIANT Export
 CHECK_DEADLOCK FALSE
